@@ -806,8 +806,15 @@ class C13(Prop):
                 except RecursionError:
                     res.labels.append("recursion")
                     continue
-                except Exception as err:  # noqa: BLE001 - totality is C02's business
-                    res.labels.append("out-of-scope:" + type(err).__name__)
+                except Exception as err:  # noqa: BLE001
+                    if cls != "other":
+                        # "names that are absolute or contain parent-directory segments fail with
+                        # TemplateNotFoundError" - not with whatever pathlib or the OS raises
+                        fails.append(("must-reject", f"wrong-error:{kind_name}:{cls}:{access}:{type(err).__name__}",
+                                      f"{where}: {type(err).__name__}: {str(err)[:200]}; expected "
+                                      f"TemplateNotFoundError [{exc_bucket(err)}]"))
+                    else:
+                        res.labels.append("out-of-scope:" + type(err).__name__)  # totality is C02's business
                     continue
 
                 # ---- a template was returned
